@@ -348,6 +348,24 @@ def _validate_MaxObjectCount_OpenPull(MaxObjectCount):
                     MaxObjectCount))
 
 
+def _cimvalue_from_cimxml(value, cimtype, conn_id=None):
+    """
+    Return the CIM typed value for the value of a RETURNVALUE or PARAMVALUE
+    element in a CIM-XML response.
+
+    This is :func:`~pywbem.cimvalue`, except that boolean values, which
+    arrive as the strings 'TRUE' and 'FALSE', are interpreted as such.
+    :func:`~pywbem.cimvalue` applies Python truth testing for type 'boolean',
+    which would turn the non-empty string 'FALSE' into True.
+    """
+    if cimtype == 'boolean':
+        if isinstance(value, list):
+            return [_cimvalue_from_cimxml(v, cimtype, conn_id) for v in value]
+        if isinstance(value, str):
+            return TupleParser(conn_id).unpack_boolean(value)
+    return cimvalue(value, cimtype)
+
+
 def _validate_context(context):
     """
     Validate the context input parameter for the Pull...() and
@@ -2305,7 +2323,8 @@ class WBEMConnection:  # pylint: disable=too-many-instance-attributes
 
         if tup_tree and tup_tree[0][0] == 'RETURNVALUE':
 
-            returnvalue = cimvalue(tup_tree[0][2], tup_tree[0][1]['PARAMTYPE'])
+            returnvalue = _cimvalue_from_cimxml(
+                tup_tree[0][2], tup_tree[0][1]['PARAMTYPE'], self.conn_id)
             tup_tree = tup_tree[1:]
 
         # Convert zero or more PARAMVALUE elements into dictionary
@@ -2316,7 +2335,8 @@ class WBEMConnection:  # pylint: disable=too-many-instance-attributes
             if p[1] == 'reference':
                 output_params[p[0]] = p[2]
             else:
-                output_params[p[0]] = cimvalue(p[2], p[1])
+                output_params[p[0]] = _cimvalue_from_cimxml(
+                    p[2], p[1], self.conn_id)
 
         return (returnvalue, output_params)
 
